@@ -31,6 +31,8 @@ impl Val {
 #[derive(Clone, Debug, PartialEq, Eq)]
 pub enum Trap {
     Unreachable,
+    /// `throw` with no handler anywhere: the exception leaves every frame
+    Exception,
     DivZero,
     Overflow,
     Oob,
@@ -311,6 +313,7 @@ impl<'a> Instance<'a> {
             match ins {
                 Ins::Nop => {}
                 Ins::Unreachable => return Err(Stop::Trap(Trap::Unreachable)),
+                Ins::Throw(_) => return Err(Stop::Trap(Trap::Exception)),
                 Ins::Drop => {
                     pop!();
                 }
